@@ -49,7 +49,7 @@ CHECKS = {
         "the harness scripts `random` inside the cuckoo modules so the real filter follows each emitted choice sequence, then compares presence of every key "
         "that is owed, before/after a failed add, and the whole table (drift).",
         note="Capacities up to 8, bucket sizes up to 3, max_swaps up to 3, up to 7 fingerprints; the schedule of random draws is the code's own order of "
-        "calls to random.choice / random.randint (a change of that order shows up as drift, not as a verdict).",
+        "calls to random.choice / random.randint (a change of that order, or another way of drawing, shows up as drift, not as a verdict: the scripted module offers the whole random interface and the history oracle is advanced from whether the code's own calls returned normally).",
         design="6 (C03)", technique=TECH),
     "C05": dict(
         category="model_checking",
@@ -66,7 +66,7 @@ CHECKS = {
         "cuckoo; hex form; the C header read back as declarations + array initialiser) and the library's answer for every key with the reference reader's answer computed from the exported bytes alone (Bloom, "
         "counting Bloom, count-min min/mean/mean-min). TLC prints one verdict per trace.",
         note="TLC is used as an executable reference here (encode/decode fidelity is at the edge of the technique): structures up to ~80 cells, keys up to 8 "
-        "bytes; Bloom geometry from an independent 50-digit evaluation of the documented formula; cuckoo histories with evictions are excluded; the float "
+        "bytes; Bloom geometry from an independent 50-digit evaluation of the documented formula; cuckoo exports (evictions, growth and rejected additions included) are read back and judged as well-formed tables holding exactly the history's fingerprints, each in one of its two buckets - where a fingerprint sits is the library's choice; histories that reach a storage limit are judged on the cells read from the exported bytes (TraceSat.tla, limb arithmetic); the float "
         "rate is compared as 4 raw bytes; mean-min compared only where no intermediate is negative (floor vs C truncation).",
         design="6 (C06)", technique="explicit TLA+ reference writer/reader executed by TLC over traces recorded from the implementation (trace validation)"),
     "C07": dict(
@@ -233,7 +233,7 @@ def build():
         "checks": checks,
         "notes": "See DESIGN.md (section 0 = as built). Exit 0 = held on everything explored; exit 1 + VIOLATION line; exit 2 = machinery failure. "
         "Known findings: /verif/known_findings.json (17 entries 'fixed: ...' that suppress nothing, 1 open entry D25 under C05 printed as KNOWN-FINDING). "
-        "./check selftest demonstrates the binding of the specifications to the code; seeded/ holds 180 independently produced breaking changes and what caught them.",
+        "./check selftest demonstrates the binding of the specifications to the code; seeded/ holds 240 independently produced breaking changes and what caught them; DESIGN 0.4b records the property-preserving (benign) changes the checks were run against.",
         "not_applicable": [{"property_id": p, "reason": PENDING_REASON} for p in props if p not in CHECKS],
     }
     (VERIF / "MANIFEST.json").write_text(json.dumps(m, indent=1))
